@@ -103,6 +103,7 @@ def run_case(case, emit):
     import shutil
     from vf import eng
     eng.install_conn_proxy()
+    eng.install_connect_census()
     tmpd = os.environ["VTL_TEMP_DIRECTORY"]
     work = os.path.join(eng.SCRATCH, "c16")
     shutil.rmtree(work, ignore_errors=True)
@@ -170,6 +171,15 @@ def run_case(case, emit):
                     real.close()
                 except Exception:  # noqa: BLE001
                     pass
+        still_open = [c for c in eng.CONNECTIONS if c is not real and not eng.conn_is_closed(c)]
+        if still_open:
+            problems.append(f"another database connection opened during the failing call is still open ({len(still_open)})")
+            for c in still_open:
+                try:
+                    c.close()
+                except Exception:  # noqa: BLE001
+                    pass
+        del eng.CONNECTIONS[:]
         fds = fd_targets_inside(tmpd)
         if fds:
             problems.append(f"open file descriptors into the session directory: {fds[:2]}")
@@ -210,6 +220,7 @@ def run_case(case, emit):
             continue
         stage = stage_of(clean_log, k)
         eng.PROXY.reset(fail_at=k, fault_factory=factories[kind])
+        del eng.CONNECTIONS[:]
         shutil.rmtree(outdir, ignore_errors=True)
         status, r = eng.call(eng.run, script, st, fresh_dps(), **kw)
         fired = eng.PROXY["fired"]
@@ -245,6 +256,14 @@ def run_case(case, emit):
         nat.append((f"zero-divisor:S{j + 1}", "script", j))
     if case["out"]:
         nat.append(("output-folder-is-a-file", "out", None))
+    for var, val in (("VTL_THREADS", "auto"), ("VTL_THREADS", "2.0"), ("VTL_DUCKDB_DECIMAL_WIDTH", "28.0"), ("OUTPUT_NUMBER_SIGNIFICANT_DIGITS", ""),
+                     ("VTL_MEMORY_LIMIT", "lots"), ("VTL_THREADS", "0"), ("VTL_DUCKDB_DECIMAL_WIDTH", "99")):
+        nat.append((f"unusable-setting:{var}={val!r}", "env", (var, val)))
+    eval_script = ('DS_e <- eval(R1(IN_1) language "SQL" returns dataset {identifier<integer> Id_1, measure<number> Me_1});\n' + script)
+    for rname, query in (("self-join", "SELECT a.Id_1, a.Me_1 FROM IN_1 a JOIN IN_1 b ON a.Id_1 = b.Id_1"), ("unknown-column", "SELECT Id_1, Me_9 AS Me_1 FROM IN_1"),
+                         ("syntax-error", "SELEC Id_1 FROM IN_1"), ("subquery-same-table", "SELECT Id_1, Me_1 FROM IN_1 WHERE Id_1 IN (SELECT Id_1 FROM IN_1)"),
+                         ("wrong-result-columns", "SELECT Id_1 FROM IN_1")):
+        nat.append((f"eval-routine:{rname}", "eval", query))
     for label, what, arg in nat:
         if only and only != label:
             continue
@@ -261,9 +280,25 @@ def run_case(case, emit):
             blocker = os.path.join(work, "blocker")
             open(blocker, "w").close()
             kw2["output_folder"] = os.path.join(blocker, "sub")
+        elif what == "eval":
+            sc = eval_script
+            kw2["external_routines"] = {"name": "R1", "query": arg}
+        saved_env = None
+        if what == "env":
+            saved_env = (arg[0], os.environ.get(arg[0]))
+            os.environ[arg[0]] = arg[1]
         eng.PROXY.reset()
+        eng.PROXY["real"] = None
+        del eng.CONNECTIONS[:]
         shutil.rmtree(outdir, ignore_errors=True)
-        status, r = eng.call(eng.run, sc, st, d2, **kw2)
+        try:
+            status, r = eng.call(eng.run, sc, st, d2, **kw2)
+        finally:
+            if saved_env is not None:
+                if saved_env[1] is None:
+                    os.environ.pop(saved_env[0], None)
+                else:
+                    os.environ[saved_env[0]] = saved_env[1]
         if status == "ok":
             emit({"v": "inc", "why": f"natural fault {label.split(':')[0]} did not make run() fail"})
             continue
